@@ -10,6 +10,7 @@ package chainsim
 import (
 	"fmt"
 	"sort"
+	"strings"
 
 	"cosmossdk.io/math"
 	sdk "github.com/cosmos/cosmos-sdk/types"
@@ -40,11 +41,10 @@ type c42State struct {
 	pre      c42Pre
 	// relay bracketing
 	relayBP map[string]uint64 // provider|spec -> IprpcCu before the tx
-	relayTC map[string]uint64 // consumer|provider|spec -> tracked CU before the tx
+	relayTC map[string]uint64 // consumer|subBlock|provider|spec -> tracked CU before the tx
 	// IPRPC CU per provider|spec this month as seen through tracked-CU deltas of eligible subscriptions
 	ledger      map[string]uint64
 	rolledSpecs map[string]int // spec -> consecutive months rolled over
-	subBlocks   map[string][]uint64
 }
 
 var c42Cur *c42State
@@ -123,7 +123,6 @@ func c42ProvRecs(recs map[string]sdk.Coins) map[string]sdk.Coins {
 func (st *c42State) onInterval(pre, post c21Snap, refill bool) {
 	s, r := st.s, st.s.R
 	defer st.capture()
-	st.trackedAll() // keeps the list of subscription versions current
 	st.checkPoolBacksRecords("block")
 	if !refill {
 		// nothing but the monthly distribution may take funds out of the IPRPC pool
@@ -397,28 +396,26 @@ func c42NameMap(s *Sim, m map[string]sdk.Coins) string {
 func (st *c42State) trackedAll() map[string]uint64 {
 	s := st.s
 	out := map[string]uint64{}
+	epoch := s.EpochStart()
 	for _, c := range s.Consumers {
-		// CU is tracked under the block of the subscription version the relay's epoch belongs to,
-		// which may be an older version than the latest one: look under all recently seen versions
-		if sub, found := s.K.Subscription.GetSubscription(s.Ctx, c.Acc.Addr); found {
-			bl := st.subBlocks[c.Acc.Addr]
-			if len(bl) == 0 || bl[len(bl)-1] != sub.Block {
-				bl = append(bl, sub.Block)
-				if len(bl) > 6 {
-					bl = bl[len(bl)-6:]
-				}
-				st.subBlocks[c.Acc.Addr] = bl
-			}
+		// The CU of a relay is tracked under the block of the subscription version its epoch belongs
+		// to. All relays of these histories carry the current epoch, so the candidates are the
+		// version at the epoch start and the latest one. (Older versions are not consulted: after
+		// their payout the store still answers with the stale entry.)
+		var blocks []uint64
+		if sub, _, found := s.K.Subscription.GetSubscriptionForBlock(s.Ctx, c.Acc.Addr, epoch); found {
+			blocks = append(blocks, sub.Block)
 		}
-		seen := map[uint64]bool{}
-		for _, b := range st.subBlocks[c.Acc.Addr] {
-			if seen[b] {
-				continue
-			}
-			seen[b] = true
+		if sub, found := s.K.Subscription.GetSubscription(s.Ctx, c.Acc.Addr); found && (len(blocks) == 0 || blocks[0] != sub.Block) {
+			blocks = append(blocks, sub.Block)
+		}
+		for _, b := range blocks {
 			list, _ := s.K.Subscription.GetSubTrackedCuInfo(s.Ctx, c.Acc.Addr, b)
 			for _, t := range list {
-				out[c.Acc.Addr+"|"+t.Provider+"|"+t.ChainID] += t.TrackedCu
+				out[fmt.Sprintf("%s|%d|%s|%s", c.Acc.Addr, b, t.Provider, t.ChainID)] += t.TrackedCu
+				if debugOn {
+					s.R.Logf("      [dbg] tracked %s block=%d %s %s cu=%d (h=%d)", c.Acc.Name, b, s.NameOf(t.Provider), t.ChainID, t.TrackedCu, s.Height())
+				}
 			}
 		}
 	}
@@ -449,13 +446,9 @@ func (st *c42State) afterTx(tx *TxResult) {
 		if v <= st.relayTC[k] {
 			continue
 		}
-		var cons, rest string
-		for i := 0; i < len(k); i++ {
-			if k[i] == '|' {
-				cons, rest = k[:i], k[i+1:]
-				break
-			}
-		}
+		// key = consumer|subBlock|provider|spec
+		parts := strings.SplitN(k, "|", 3)
+		cons, rest := parts[0], parts[2]
 		if st.eligible[cons] {
 			elig[rest] += v - st.relayTC[k]
 		} else {
@@ -602,7 +595,7 @@ func (s *Sim) opC42Relay() {
 func runC42(r *simrt.Run) {
 	w := baseWeights()
 	w["c42_setdata"] = 2
-	w["c42_fund"] = 8
+	w["c42_fund"] = 12
 	w["c42_relay"] = 30
 	w["relay"] = 10
 	w["buy"] = 12
@@ -611,7 +604,7 @@ func runC42(r *simrt.Run) {
 	cfg := mkCfg(r, w, 60, 170)
 	months := c21Months(r)
 	s := NewSim(r, cfg)
-	st := &c42State{s: s, eligible: map[string]bool{}, ledger: map[string]uint64{}, rolledSpecs: map[string]int{}, subBlocks: map[string][]uint64{}}
+	st := &c42State{s: s, eligible: map[string]bool{}, ledger: map[string]uint64{}, rolledSpecs: map[string]int{}}
 	c42Cur = st
 	for i := 0; i < 2; i++ {
 		f := s.NewAccount(fmt.Sprintf("funder%d", i), 0)
@@ -625,6 +618,8 @@ func runC42(r *simrt.Run) {
 	s.Warmup()
 	r.Step()
 	s.opC42SetData()
+	r.Step()
+	s.opC42Fund()
 	per := cfg.Steps / months
 	if per < 5 {
 		per = 5
